@@ -23,7 +23,11 @@ logging.disable(logging.CRITICAL)
 d = tempfile.mkdtemp()
 ok = False
 try:
-    st = BlobStorage(os.path.join(d, 'blobs'), FileStorage(os.path.join(d, 'Data.fs')))
+    if 'mapping' in sys.argv[1:]:       # non-undo base: BlobStorage._packNonUndoing
+        from ZODB.MappingStorage import MappingStorage
+        st = BlobStorage(os.path.join(d, 'blobs'), MappingStorage())
+    else:
+        st = BlobStorage(os.path.join(d, 'blobs'), FileStorage(os.path.join(d, 'Data.fs')))
     db = ZODB.DB(st)        # only the root transaction: the base pack frees nothing
     oid = st.new_oid()
     src = os.path.join(d, 'incoming'); open(src, 'wb').write(b'blob data')
